@@ -12,6 +12,7 @@ import common
 from framework import Case, Finding
 
 PROP = "C20"
+GENERATED = ['Selection']  # generated files this check's tie depends on
 LEAN_MODULES = ["Properties.C20"]
 NEEDS_DTYPES = False
 RULE = (
